@@ -1006,6 +1006,13 @@ class Engine:
             if z3.is_false(c):
                 self.set(fr, ins, b)
                 return
+            # a select whose condition is decided by the path condition keeps terms small
+            if not self.feasible(st, c):
+                self.set(fr, ins, b)
+                return
+            if not self.feasible(st, z3.Not(c)):
+                self.set(fr, ins, a)
+                return
             t = ins.ty
             if t.kind == "fp" and not isinstance(a, float) and not isinstance(b, float) or (t.kind == "fp" and self.exact):
                 try:
